@@ -65,8 +65,9 @@ def rules(ck, P):
                 desc = p1
                 okc = p1.endswith("get_parameters().tile_compression") and ir.local_hid(root) == src["hid"]
                 # the decompressed blob is what gets collected
-                okc = okc and ir.contains(loops[0]["body"], lambda y: y.get("k") == "mcall" and y.get("name") == "push" and ir.place_str(y["a"][0]) == "blob")
-                asg = ir.contains(loops[0]["body"], lambda y: y.get("k") == "assign" and ir.place_str(y["l"]) == "blob" and ir.contains(y["r"], lambda z: z is dc[0]))
+                bh_ = ir.local_hid(dc[0]["a"][0])
+                okc = okc and bh_ is not None and ir.contains(loops[0]["body"], lambda y: y.get("k") == "mcall" and y.get("name") == "push" and ir.local_hid(y["a"][0]) == bh_)
+                asg = ir.contains(loops[0]["body"], lambda y: y.get("k") == "assign" and ir.local_hid(y["l"]) == bh_ and ir.contains(y["r"], lambda z: z is dc[0]))
                 okc = okc and asg
         ck.check(okc, "E-COMP", fn["q"] + "|" + path, "%s: each source's blob is decoded with that source's declared compression before merging (%s)" % (path, desc),
                  "%s: blobs are not decoded with the producing source's declared compression (%s)" % (path, desc), ir.loc(fn))
@@ -90,11 +91,17 @@ def rules(ck, P):
     why = ""
     if len(loops) == 2:
         outer, inner = loops
-        order_ok = ir.place_str(outer["iter"]) in ("blobs.into_iter()", "blobs", "blobs.iter()")
+        bp_ = [x for p_ in m["params"] for x in ir.pat_binds(p_)]
+        it_ = ir.strip(outer["iter"])
+        while it_ is not None and it_.get("k") == "mcall" and it_.get("name") in ("into_iter", "iter") and not it_.get("a"):
+            it_ = ir.strip(it_["recv"])
+        order_ok = bool(bp_) and ir.local_hid(it_) == bp_[0]["hid"]
         nl = ir.pat_binds(inner["pat"])[0]
-        tile_ok = ir.place_str(inner["iter"]).endswith("tile.layers") or ".layers" in ir.place_str(inner["iter"])
-        gets = [n for n in ir.walk_nodes(inner["body"]) if n.get("k") == "mcall" and n.get("name") in ("get_mut", "entry") and ir.place_str(n["recv"]) == "layers"]
-        ins = [n for n in ir.walk_nodes(inner["body"]) if n.get("k") == "mcall" and n.get("name") == "insert" and ir.place_str(n["recv"]) == "layers"]
+        tile_ok = ir.strip(inner["iter"]).get("k") == "field" and ir.strip(inner["iter"]).get("name") == "layers" or ".layers" in ir.place_str(inner["iter"])
+        mapl = [n for n in ir.walk_nodes(m["body"]) if n.get("k") == "let" and n["pat"].get("k") == "bind" and "HashMap<" in n["pat"].get("t", "") and "VectorTileLayer" in n["pat"].get("t", "")]
+        mh_ = mapl[0]["pat"]["hid"] if len(mapl) == 1 else None
+        gets = [n for n in ir.walk_nodes(inner["body"]) if n.get("k") == "mcall" and n.get("name") in ("get_mut", "entry") and mh_ is not None and ir.local_hid(n["recv"]) == mh_]
+        ins = [n for n in ir.walk_nodes(inner["body"]) if n.get("k") == "mcall" and n.get("name") == "insert" and mh_ is not None and ir.local_hid(n["recv"]) == mh_]
         adds = [n for n in ir.walk_nodes(inner["body"]) if n.get("k") == "mcall" and (n.get("q") or "").endswith("VectorTileLayer::add_from_layer")]
         key_ok = bool(gets) and ir.place_str(gets[0]["a"][0]).endswith(nl["name"] + ".name")
         ins_ok = len(ins) == 1 and ir.place_str(ins[0]["a"][0]).startswith(nl["name"] + ".name") and ir.local_hid(ins[0]["a"][1]) == nl["hid"]
@@ -130,8 +137,11 @@ def rules(ck, P):
             src_ok = False
             for n in ir.walk_nodes(b2["body"]):
                 if n.get("k") == "call" and (n.get("q") or "").endswith("mem::swap"):
-                    src_ok = any(ir.place_str(a).endswith("layer.features") for a in n["a"])
-            oko = oko and src_ok and ir.place_str(floops[0]["iter"]) == "features"
+                    swapped = [a for a in n["a"] if ir.contains(a, lambda y: y.get("k") == "field" and y.get("name") == "features" and ir.local_hid(y["e"]) == lp[0]["hid"])]
+                    others = [ir.local_hid(ir.strip(a)["e"] if ir.strip(a).get("k") == "ref" else a) for a in n["a"] if a not in swapped]
+                    src_ok = len(swapped) == 1 and len(others) == 1 and ir.local_hid(floops[0]["iter"]) is not None and \
+                        ir.local_hid(floops[0]["iter"]) in {ir.local_hid(y) for a in n["a"] if a not in swapped for y in ir.walk_nodes(a)}
+            oko = oko and src_ok
         ck.check(oko, "R-TAG-OWNER", b2["q"], "tags are decoded with the incoming layer's tables, the moved feature is added to self with those properties, in order",
                  "add_from_layer does not decode with the origin layer's tables / move features in order", ir.loc(b2))
         b3 = avf[0]
@@ -150,7 +160,8 @@ def rules(ck, P):
         x = s["e"] if s.get("k") == "semi" else s
         if x.get("k") == "if":
             c = ir.unparen(x["c"])
-            if c.get("k") == "mcall" and c.get("name") == "is_empty" and ir.place_str(c["recv"]) == "blobs":
+            mt_ = [y for y in ir.walk_nodes(x) if y.get("k") == "call" and (y.get("q") or "").endswith("::merge_tiles")]
+            if c.get("k") == "mcall" and c.get("name") == "is_empty" and mt_ and ir.local_hid(c["recv"]) is not None and ir.local_hid(c["recv"]) == ir.local_hid(mt_[0]["a"][0]):
                 oke = ir.contains(x["then"], lambda y: (y.get("q") or "").endswith("Option::None::{Ctor#0}")) and "else" in x and \
                     ir.contains(x["else"], lambda y: y.get("k") == "call" and (y.get("q") or "").endswith("::merge_tiles"))
     ck.check(oke, "R-EXISTS", gtd["q"], "lookup: no tile iff no source delivered one; otherwise the merge of all delivered blobs",
